@@ -2,6 +2,7 @@ package main
 
 import (
 	"fmt"
+	"go/constant"
 	"go/token"
 	"go/types"
 	"sort"
@@ -155,7 +156,25 @@ func (sp *LockSpec) tryLockSucc(b *ssa.BasicBlock) int {
 	case -1:
 		return 1
 	}
-	// select-case acquisition of a token channel: handled conservatively (none)
+	// select-case acquisition of a token channel: `case <-tokenChan:` is
+	// entered on the edge where the select's chosen index equals that case
+	if sp.TokenChan != "" {
+		if bo, ok := iff.Cond.(*ssa.BinOp); ok && bo.Op == token.EQL {
+			if ex, ok := bo.X.(*ssa.Extract); ok && ex.Index == 0 {
+				if sel, ok := ex.Tuple.(*ssa.Select); ok {
+					if k, ok := bo.Y.(*ssa.Const); ok && k.Value != nil {
+						idx, _ := constant.Int64Val(k.Value)
+						if int(idx) < len(sel.States) {
+							st := sel.States[idx]
+							if st.Dir == types.RecvOnly && fieldOfLoad(st.Chan) == sp.TokenChan {
+								return 0
+							}
+						}
+					}
+				}
+			}
+		}
+	}
 	return -1
 }
 
